@@ -2840,3 +2840,52 @@ func init() {
 	registry["C08"].Meta.Rules["C08.15"] = "the reader un-shuffles whatever the writer shuffled: the rejection tests of core.applyShuffle on the element size refuse only sizes below 1 (with <= 1 every chunk of an int8 dataset written with the shuffle filter fails to decode)"
 	registry["C08"].Rules = append(registry["C08"].Rules, lzfEncoderRules)
 }
+
+// ---- a new heap collection's accounts add up (C12.17) ----
+func init() {
+	registry["C12"].Meta.Rules["C12.17"] = "a new collection's accounts add up: where a globalHeapCollectionBuilder is built, usedSpace + freeSpace = size as linear forms over the function's values (freeSpace = collectionSize without the 16 header bytes taken off admits an object that ends in the last 16 bytes of the collection: it is written over whatever was allocated behind the collection)"
+	registry["C12"].Rules = append(registry["C12"].Rules, func(c *Ctx, r *Result) {
+		n := 0
+		for _, fn := range c.LibFuncs() {
+			if shortPkg(fnPkgPath(fn)) != "hdf5" {
+				continue
+			}
+			vals := map[ssa.Value]map[string]ssa.Value{}
+			var first = map[ssa.Value]ssa.Instruction{}
+			instrs(fn, func(in ssa.Instruction) {
+				st, ok := in.(*ssa.Store)
+				if !ok {
+					return
+				}
+				fa, ok := st.Addr.(*ssa.FieldAddr)
+				if !ok {
+					return
+				}
+				f, base := fieldOfAddr(fa)
+				if f == nil || !strings.HasPrefix(fieldKey(base.Type(), f), "hdf5.globalHeapCollectionBuilder.") {
+					return
+				}
+				if _, isAlloc := base.(*ssa.Alloc); !isAlloc {
+					return // an update of an existing builder, not its construction
+				}
+				if vals[base] == nil {
+					vals[base] = map[string]ssa.Value{}
+					first[base] = in
+				}
+				vals[base][f.Name()] = st.Val
+			})
+			fb := c.FB(fn)
+			for base, m := range vals {
+				if m["size"] == nil || m["usedSpace"] == nil || m["freeSpace"] == nil {
+					continue
+				}
+				n++
+				sum := fb.lin(m["usedSpace"]).add(fb.lin(m["freeSpace"]), 1)
+				r.Check(sum.equal(fb.lin(m["size"])), "C12.17", c.Name(fn)+"#used-plus-free-is-size", c.InstrPos(first[base]), "usedSpace + freeSpace = "+fb.linString(sum)+"; size = "+fb.linString(fb.lin(m["size"])))
+			}
+		}
+		if n < 1 {
+			r.Shortfall(c, "C12.17", "C12.17: no construction of a globalHeapCollectionBuilder with size, usedSpace and freeSpace found")
+		}
+	})
+}
